@@ -123,6 +123,7 @@ C03_Resolve ==
     /\ \A r \in obs.refs : r[2] # "" =>
          \E s \in obs.specs : s.path = r[1] /\ s.name \notin {"_", "."} /\ Provides(s, r[2])
     /\ \A r1, r2 \in obs.refs : r1[1] = r2[1] => r1[2] = r2[2]
+    /\ \A r \in obs.refs : \A s \in obs.specs : (s.path # r[1] /\ s.name \notin {"_", "."}) => ~Provides(s, r[2])   \* bound to exactly that path
 
 \* which paths the body references with an emitted package token / through a dot import
 DotPaths == {s.path : s \in {x \in obs.specs : x.name = "."}}
